@@ -536,6 +536,7 @@ class Check:
                     "samples": cov["samples"], "streams": cov["streams"], "err_histogram": cov["err_histogram"],
                     "exhaustive_streams": cov["exhaustive_streams"], "oracle_checked": n_oracle,
                     "agreement_lemmas": tie["n"], "broken": broken,
+                    "api_coverage_of_probe_sample": self.api_cov(),
                     "known_findings_seen": sorted(seen_known),
                 },
                 "assumptions": getattr(prop, "ASSUMPTIONS", []),
@@ -548,6 +549,20 @@ class Check:
             return 1 if out_v else 0
         finally:
             shutil.rmtree(self.scratch, ignore_errors=True)
+
+    def api_cov(self):
+        """which public methods / property setters of the anchored classes the profiled sample of this
+        run entered (a lower bound: only the live-probe sample runs under the profiler)"""
+        try:
+            from harness import liveprobe
+            files = []
+            for l in open(os.path.join(VERIF, "properties.jsonl")):
+                pr = json.loads(l)
+                if pr["id"] == self.pid:
+                    files = pr["anchors"]["files"]
+            return liveprobe.api_coverage(files)
+        except Exception as e:  # informational only
+            return {"error": repr(e)}
 
     def run_oracle(self, pairs):
         """pairs: list of (case, impl_result).  Returns list of (sig, msg, case, impl_result)."""
